@@ -318,11 +318,20 @@ def run(ctx):
     corr = evaluate(ctx, ident, arrays, ["dbg", "rel", "isa"])
     from harness import narrowlib
     narrowlib.part(ctx, corr, "nn", "nn_array")      # narrow index types on axes longer than half their range
+    from harness import ldlib
+    ldlib.part(ctx, corr, ['nn'], "nn_array")      # long double coordinates
     return corr
 
 
 def replay(ctx):
     c = ctx.replay["case"]
+    if c and c.get("op") == "longdouble":
+        from vlib.framework import Corr as _Corr
+        from harness import ldlib
+        corr = _Corr()
+        corr.add_obl("nn_array")
+        ldlib.part(ctx, corr, c["ops"], "nn_array", cfgs=(c.get("cfg", "dbg"),))
+        return corr
     if c and c.get("op") == "narrow":
         from vlib.framework import Corr as _Corr
         from harness import narrowlib
